@@ -290,7 +290,7 @@ func exec(line string) hx.Result {
 			forks++
 		case strings.HasPrefix(op, "b"):
 			n, err := strconv.Atoi(op[1:])
-			if err != nil || n < 0 || n > 200 {
+			if err != nil || n < 0 || n > 3000 {
 				return hx.Result{Out: "bad-op"}
 			}
 			s.commit(newTxs(n))
@@ -313,6 +313,9 @@ func exec(line string) hx.Result {
 	final := s.report("live", &res)
 	if restarts > 0 && res.Kind == "plain" {
 		res.Kind = "restart"
+	}
+	if maxTx > 1024 {
+		res.Kind += "+bigblock"
 	}
 	if syncs > forks {
 		res.Kind += "+hdrsync"
@@ -349,6 +352,14 @@ func gen(r *hx.Rand, tier string, i int) string {
 			ops = append(ops, fmt.Sprintf("b%d", r.Intn(5)))
 		}
 	}
+	if (tier == "thorough" && i%25 == 7) || (tier == "quick" && i == 11) {
+		// a large block (more than 1024 / about 1500 transactions), then enough blocks to evict it from the block cache, then a restart
+		big := []int{1025, 1100 + r.Intn(500), 2049}[r.Intn(3)]
+		if tier == "quick" {
+			big = 1300 + r.Intn(300)
+		}
+		ops = append(ops, fmt.Sprintf("b%d", big), fmt.Sprintf("x%d", 10+r.Intn(4)), "r")
+	}
 	if tier == "thorough" && i%40 == 0 {
 		ops = append([]string{fmt.Sprintf("x%d", 1990+r.Intn(30))}, ops...)
 	}
@@ -365,13 +376,16 @@ func main() {
 		ID: "C40",
 		Rule: "chains of real solo-ledger blocks (0-40 native transfers each, runs of empty blocks, a block repeating an already committed tx, header sync of the next header before its block, a candidate header followed by the commit of a different block at that height), " +
 			"restarts (Close + reopen of the LevelDB directories) in the middle; after every restart and at the end EVERY height is queried by all five routes " +
-			"and compared byte-wise with what was committed; corpus chains cross HEADER_INDEX_MAX_SIZE so that evicted heights are queried. the boundary height cur-MAX is reported separately (bd=). kinds: plain/restart/repeat(+hdrsync)(+evicted)",
+			"and compared byte-wise with what was committed; corpus chains cross HEADER_INDEX_MAX_SIZE so that evicted heights are queried. the boundary height cur-MAX is reported separately (bd=). blocks with more than 1024 transactions read back from disk. kinds: plain/restart/repeat(+hdrsync)(+evicted)",
 		Gen:  gen,
 		Exec: exec,
 		Corpus: []string{"Q b1", "Q r", "Q b0;r;b0", "Q b3;b0;b2;r;b1;r;r;b4", "Q b2;d;r;d;b1", "Q x2001;b2;r;b1;x3;r", "Q x1998;r;b1;b1;b1;r;b2",
 			// boundary height cur-MAX on chains of MAX, MAX+1, MAX+5 blocks: after a restart, after a header sync, and both
 			"Q x1999;r", "Q x2000;r", "Q x2001;r;b1", "Q x2005;r;s1;r", "Q x2000;s1", "Q x2001;s0;r", "Q x2005;s2;b1;s0", "Q b1;s2;r;s0",
 			// candidate header X accepted by AddHeader, then a different block Y committed at that height (same parent)
+			// a block with more transaction hashes than any pre-allocation bound, read back from DISK: ten later blocks push it out of the
+			// block cache, and a restart empties the caches
+			"Q b1025;x11;r;b1",
 			"Q f1", "Q b1;f0;b1", "Q f2;r;f0;s1;f1", "Q b2;s1;f1;r;b1;f0;f0;r", "Q x2001;f1;r;f0",
 			"Q b40;b1;r;b40"},
 		N: map[string]int{"quick": 40, "thorough": 600},
